@@ -354,15 +354,19 @@ func partA(c *vf.Ctx, keys []tkey, g *keygen) {
 	var cases []caseA
 	for _, k := range keys {
 		for _, p := range passes {
-			if k.class && !c.Thorough {
-				// value-class keys, quick: plain with three comments, 'x' with one comment
-				switch p.n {
-				case "none":
+			if k.class {
+				// value-class keys: plain with three comments, 'x' with one comment (thorough: every
+				// passphrase class with two comments); the padding sweep belongs to the standard keys
+				switch {
+				case p.n == "none":
 					for _, cm := range []string{"", "user@host with spaces", "12345"} {
 						cases = append(cases, caseA{k, p.p, p.n, cm, false})
 					}
-				case "x":
+				case p.n == "x" || c.Thorough:
 					cases = append(cases, caseA{k, p.p, p.n, "user@host with spaces", false})
+					if c.Thorough {
+						cases = append(cases, caseA{k, p.p, p.n, "", false})
+					}
 				}
 				continue
 			}
